@@ -9,7 +9,7 @@
      4. vertical position and justification -> region and alignment
      5. the file: GSI fields, grouping of TTI blocks into subtitles, cumulative sets *)
 From Coq Require Import QArith.
-From TT Require Import Base.Prelude Gen.Iso6937Spec.
+From TT Require Import Base.Prelude Gen.Iso6937Spec Spec.Smpte12M.
 Open Scope Z_scope.
 
 Definition replacement : Z := 0xFFFD.
@@ -108,8 +108,7 @@ Definition decoder_spec (cct : list Z) : list Z -> text :=
    An attribute code takes effect for the characters that follow it; it occupies a character position, which
    is presented as a space only when it separates two printable characters (spaces, and the positions of
    attribute codes, at the start or end of a row or next to another space carry no text).  A new-line code
-   starts a new row unless nothing follows it on the row (another new-line, as with double height rows, or the
-   end of the text).  Teletext rows start with the teletext defaults (white on black); open subtitles keep
+   starts a new row unless the text ends there (and see double height below).  Teletext rows start with the teletext defaults (white on black); open subtitles keep
    their attributes across rows. *)
 Definition filler : Z := 0x8F.
 Definition newline_code : Z := 0x8A.
@@ -150,15 +149,19 @@ Fixpoint text_of_field (bs : list Z) : list Z :=
 (* each position with its neighbours (the unused-space code stands outside the text) *)
 Definition with_neighbours (t : list Z) : list (Z * Z * Z) := combine (combine (filler :: t) t) (tl t ++ [filler]).
 
-Definition token_at (pcn : Z * Z * Z) : list token :=
+(* double height: the field contains the double-height code; its rows are two teletext rows high and are
+   separated by two new-line codes, of which the first does not start a row of its own *)
+Definition double_height (t : list Z) : bool := existsb (fun b => b =? 0x0D) t.
+
+Definition token_at (dh : bool) (pcn : Z * Z * Z) : list token :=
   let '(p, c, n) := pcn in
   let between := printable p && printable n in
   if printable c then [TChar c]
   else if c =? 0x20 then (if between then [TChar c] else [])
-  else if c =? newline_code then (if (n =? newline_code) || (n =? filler) then [] else [TBreak])
+  else if c =? newline_code then (if (n =? filler) || (dh && (n =? newline_code)) then [] else [TBreak])
   else if attribute_code c then [TAttr c between]
   else [].
-Definition tokens (t : list Z) : list token := flat_map token_at (with_neighbours t).
+Definition tokens (t : list Z) : list token := flat_map (token_at (double_height t)) (with_neighbours t).
 
 Definition flush (dec : list Z -> text) (a : attrs) (run : list Z) : list piece :=
   match run with [] => [] | _ => [Run a (dec run)] end.
@@ -174,3 +177,247 @@ Fixpoint interpret (dec : list Z -> text) (teletext : bool) (a : attrs) (run : l
 
 Definition tf_spec (dec : list Z -> text) (teletext : bool) (field : list Z) : list piece :=
   interpret dec teletext (default_attrs teletext) [] (tokens (text_of_field field)).
+
+(* two consecutive new-line codes in a field without double height are an empty row *)
+Fixpoint adjacent_newlines (t : list Z) : bool :=
+  match t with
+  | a :: ((b :: _) as r) => ((a =? newline_code) && (b =? newline_code)) || adjacent_newlines r
+  | _ => false
+  end.
+
+(* ================================================================================================ 3 *)
+(* Time codes.  TCI/TCO are SMPTE 12M time addresses (hours, minutes, seconds, frames) counted at the frame
+   rate named by the disk format code.  The address of frame number n of the counting sequence
+   (Spec/Smpte12M.v label_spec) is presented n frame periods after 00:00:00:00.  Closed form of n: nominal
+   count minus the frame numbers skipped by drop-frame counting (D per minute, except every tenth minute).
+   Only 30000/1001 uses drop-frame counting; SMPTE 12M defines none for 24000/1001. *)
+Record frame_rate := mkFR { fr_num : Z ; fr_den : Z ; fr_nominal : Z ; fr_drop : Z }.
+Definition dfc_rate (dfc : list Z) : option frame_rate :=
+  match dfc with
+  | [0x53; 0x54; 0x4C; a; b; 0x2E; 0x30; 0x31] =>          (* "STLnn.01" *)
+      if (a =? 0x32) && (b =? 0x33) then Some (mkFR 24000 1001 24 0)
+      else if (a =? 0x32) && (b =? 0x34) then Some (mkFR 24 1 24 0)
+      else if (a =? 0x32) && (b =? 0x35) then Some (mkFR 25 1 25 0)
+      else if (a =? 0x33) && (b =? 0x30) then Some (mkFR 30000 1001 30 2)
+      else if (a =? 0x35) && (b =? 0x30) then Some (mkFR 50 1 50 0)
+      else None
+  | _ => None
+  end.
+Definition smpte_count (F D : Z) (l : label) : Z :=
+  let '(h, m, s, f) := l in
+  let minutes := 60 * h + m in
+  (minutes * 60 + s) * F + f - D * (minutes - minutes / 10).
+(* seconds since 00:00:00:00 *)
+Definition time_of (r : frame_rate) (l : label) : Q :=
+  Qmake (smpte_count (fr_nominal r) (fr_drop r) l * fr_den r) (Z.to_pos (fr_num r)).
+
+(* ================================================================================================ 4 *)
+(* Vertical position and justification.  The safe area is the root container minus 5 % left and right and
+   10 % top and bottom; it is divided into `rows` equal rows, row 1 at the top.  A subtitle whose first row is
+   VP and that occupies k rows is presented either in a region that starts at the top edge of row VP and ends at
+   the bottom of the safe area, text aligned to its top ("before"), or in a region that starts at the top of the
+   safe area and ends at the bottom edge of its last row VP + k - 1, text aligned to its bottom ("after"). *)
+Definition safe_left : Q := 5.   Definition safe_top : Q := 10.
+Definition safe_width : Q := 90. Definition safe_height : Q := 80.
+Definition row_top (rows r : Z) : Q := (safe_top + (inject_Z (r - 1) / inject_Z rows) * safe_height)%Q.
+Definition row_bottom (rows r : Z) : Q := (safe_top + (inject_Z r / inject_Z rows) * safe_height)%Q.
+
+Record rect := mkRect { x0 : Q ; y0 : Q ; width : Q ; height : Q ; align_after : bool }.
+Definition top_anchored (rows vp : Z) : rect :=
+  mkRect safe_left (row_top rows vp) safe_width (safe_top + safe_height - row_top rows vp)%Q false.
+Definition bottom_anchored (rows last_row : Z) : rect :=
+  mkRect safe_left safe_top safe_width (row_bottom rows last_row - safe_top)%Q true.
+Definition inside_safe_area (r : rect) : Prop :=
+  (safe_left <= x0 r /\ x0 r + width r <= safe_left + safe_width /\
+   safe_top <= y0 r /\ y0 r + height r <= safe_top + safe_height /\ 0 <= height r)%Q.
+Definition inside_safe_area_b (r : rect) : bool :=
+  Qle_bool safe_left (x0 r) && Qle_bool (x0 r + width r) (safe_left + safe_width) &&
+  Qle_bool safe_top (y0 r) && Qle_bool (y0 r + height r) (safe_top + safe_height) && Qle_bool 0 (height r).
+
+(* rows occupied by a field: one more than its new-line codes, a pair of new-line codes counting once in double
+   height; each row is two teletext rows high in double height *)
+Fixpoint count_breaks (dh : bool) (t : list Z) (after_break : bool) : Z :=
+  match t with
+  | [] => 0
+  | c :: r => if c =? newline_code
+              then (if dh && after_break then count_breaks dh r false else 1 + count_breaks dh r true)
+              else count_breaks dh r false
+  end.
+Definition rows_occupied (t : list Z) : Z :=
+  let dh := double_height t in (count_breaks dh t false + 1) * (if dh then 2 else 1).
+
+(* JC: 01 left, 02 centred, 03 right; 00 (unchanged presentation) is centred teletext practice *)
+Inductive alignment := AlignStart | AlignCenter | AlignEnd.
+Definition justification (jc : Z) : alignment := if jc =? 1 then AlignStart else if jc =? 3 then AlignEnd else AlignCenter.
+
+(* ================================================================================================ 5 *)
+(* The file: a 1024-byte GSI block followed by 128-byte TTI blocks. *)
+Definition sub (off len : nat) (bs : list Z) : list Z := firstn len (skipn off bs).
+Definition byte_at (off : nat) (bs : list Z) : Z := nth off bs 0.
+
+(* GSI fields used: DFC 3..10, DSC 11, CCT 12..13, MNR 253..254, TCP 256..263 *)
+Definition gsi_dfc (g : list Z) := sub 3 8 g.
+Definition gsi_dsc (g : list Z) := byte_at 11 g.
+Definition gsi_cct (g : list Z) := sub 12 2 g.
+Definition gsi_mnr (g : list Z) := sub 253 2 g.
+Definition gsi_tcp (g : list Z) := sub 256 8 g.
+Definition teletext_dsc (dsc : Z) : bool := (dsc =? 0x31) || (dsc =? 0x32).     (* level-1 / level-2 teletext *)
+
+Definition digit_val (c : Z) : option Z := if (0x30 <=? c) && (c <=? 0x39) then Some (c - 0x30) else None.
+Definition two_digit (a b : Z) : option Z :=
+  match digit_val a, digit_val b with Some x, Some y => Some (10 * x + y) | _, _ => None end.
+
+(* TTI fields: SGN 0, SN 1..2 (low byte first), EBN 3, CS 4, TCI 5..8, TCO 9..12, VP 13, JC 14, CF 15, TF 16..127 *)
+Record block := mkBlock { b_sgn : Z ; b_sn : Z ; b_ebn : Z ; b_cs : Z ; b_tci : label ; b_tco : label ;
+                          b_vp : Z ; b_jc : Z ; b_cf : Z ; b_tf : list Z }.
+Definition block_of (b : list Z) : block :=
+  mkBlock (byte_at 0 b) (byte_at 1 b + 256 * byte_at 2 b) (byte_at 3 b) (byte_at 4 b)
+          (byte_at 5 b, byte_at 6 b, byte_at 7 b, byte_at 8 b) (byte_at 9 b, byte_at 10 b, byte_at 11 b, byte_at 12 b)
+          (byte_at 13 b) (byte_at 14 b) (byte_at 15 b) (sub 16 112 b).
+Fixpoint blocks_of (fuel : nat) (bs : list Z) : option (list block) :=
+  match fuel with
+  | O => Some []
+  | S k => match bs with
+           | [] => Some []
+           | _ => if Nat.eqb (length (firstn 128 bs)) 128
+                  then match blocks_of k (skipn 128 bs) with Some r => Some (block_of (firstn 128 bs) :: r) | None => None end
+                  else None
+           end
+  end.
+
+(* user data (EBN FE), reserved (F0..FD) and comment (CF = 01) blocks carry no subtitle text *)
+Definition carries_text (b : block) : bool := negb ((0xF0 <=? b_ebn b) && (b_ebn b <=? 0xFE)) && negb (b_cf b =? 1).
+
+Definition label_eqb (a b : label) : bool :=
+  let '(h, m, s, f) := a in let '(h', m', s', f') := b in (h =? h') && (m =? m') && (s =? s') && (f =? f').
+Definition same_subtitle (a b : block) : bool :=
+  (b_sgn a =? b_sgn b) && (b_sn a =? b_sn b) && (b_cs a =? b_cs b) && label_eqb (b_tci a) (b_tci b) &&
+  label_eqb (b_tco a) (b_tco b) && (b_vp a =? b_vp b) && (b_jc a =? b_jc b).
+
+(* a subtitle: the blocks up to and including the one with EBN = FF, text fields concatenated *)
+Record subtitle := mkSub { s_head : block ; s_field : list Z }.
+Fixpoint subtitles_go (bs : list block) (pending : option subtitle) : option (list subtitle) :=
+  match bs with
+  | [] => match pending with None => Some [] | Some _ => None end          (* an unterminated subtitle *)
+  | b :: r =>
+      match pending with
+      | Some p => if negb (same_subtitle (s_head p) b) then None else
+                  let p' := mkSub b (s_field p ++ text_of_field (b_tf b)) in
+                  if b_ebn b =? 0xFF then match subtitles_go r None with Some l => Some (p' :: l) | None => None end
+                  else subtitles_go r (Some p')
+      | None => let p' := mkSub b (text_of_field (b_tf b)) in
+                if b_ebn b =? 0xFF then match subtitles_go r None with Some l => Some (p' :: l) | None => None end
+                else subtitles_go r (Some p')
+      end
+  end.
+Definition subtitles_of (bs : list block) : option (list subtitle) := subtitles_go (filter carries_text bs) None.
+
+(* reader configuration *)
+Inductive start_cfg := StartNone | StartTCP | StartLabel (l : label).
+Inductive rows_cfg := RowsDefault | RowsMNR | RowsInt (n : Z).
+
+Definition programme_start (r : frame_rate) (g : list Z) (c : start_cfg) : Q :=
+  match c with
+  | StartNone => 0%Q
+  | StartLabel l => time_of r l
+  | StartTCP =>
+      match gsi_tcp g with
+      | [a; b; c; d; e; f; g; h] =>
+          match two_digit a b, two_digit c d, two_digit e f, two_digit g h with
+          | Some hh, Some mm, Some ss, Some ff => time_of r (hh, mm, ss, ff)
+          | _, _, _, _ => 0%Q                                   (* not a time code: no shift *)
+          end
+      | _ => 0%Q
+      end
+  end.
+Definition max_rows (g : list Z) (c : rows_cfg) : Z :=
+  if teletext_dsc (gsi_dsc g) then 23 else
+  match c with
+  | RowsDefault => 23
+  | RowsInt n => n
+  | RowsMNR => match gsi_mnr g with
+               | [a; b] => match two_digit a b with Some n => n | None => 23 end
+               | _ => 23
+               end
+  end.
+
+(* what is presented: paragraphs (a subtitle, or a cumulative set) made of timed parts *)
+Record part := mkPart { pt_begin : Q ; pt_end : Q ; pt_text : list piece }.
+Record paragraph := mkParagraph { pg_sgn : Z ; pg_align : alignment ; pg_vp : Z ; pg_rows : Z ; pg_parts : list part }.
+
+Definition q_ltb (a b : Q) : bool := negb (Qle_bool b a).
+
+(* cumulative status: 00 not cumulative, 01 first, 02 intermediate, 03 last of a cumulative set.  The parts of
+   a cumulative set accumulate in one paragraph, each on a row of its own.  `open_set`: the last paragraph is a
+   cumulative set that has not seen its last member.  A subtitle that begins before the programme start is not
+   presented.  None: the sequence is outside this specification (cumulative sets not bracketed, a member of a
+   set dropped while another is kept, TCO before TCI, subtitle numbers not increasing). *)
+Fixpoint paragraphs_go (r : frame_rate) (start : Q) (dec : list Z -> text) (teletext : bool)
+         (subs : list subtitle) (last_sn : Z) (acc : list paragraph) (open_set : option bool) : option (list paragraph) :=
+  match subs with
+  | [] => match open_set with None => Some acc | Some _ => None end
+  | s :: rest =>
+      let h := s_head s in
+      let b := (time_of r (b_tci h) - start)%Q in
+      let e := (time_of r (b_tco h) - start)%Q in
+      if negb (last_sn <? b_sn h) then None else
+      if q_ltb e b then None else
+      let kept := negb (q_ltb b 0) in
+      let txt := tf_spec dec teletext (s_field s) in
+      let cs := b_cs h in
+      if cs =? 0 then
+        match open_set with
+        | Some _ => None
+        | None => paragraphs_go r start dec teletext rest (b_sn h)
+                    (if kept then acc ++ [mkParagraph (b_sgn h) (justification (b_jc h)) (b_vp h) (rows_occupied (s_field s)) [mkPart b e txt]] else acc) None
+        end
+      else if cs =? 1 then
+        match open_set with
+        | Some _ => None
+        | None => paragraphs_go r start dec teletext rest (b_sn h)
+                    (if kept then acc ++ [mkParagraph (b_sgn h) (justification (b_jc h)) (b_vp h) (rows_occupied (s_field s)) [mkPart b e (txt ++ [Break])]] else acc) (Some kept)
+        end
+      else if (cs =? 2) || (cs =? 3) then
+        match open_set with
+        | None => None
+        | Some k =>
+            if negb (Bool.eqb k kept) then None else
+            let piece_list := if cs =? 2 then txt ++ [Break] else txt in
+            let acc' := if kept then
+                          match rev acc with
+                          | p :: before => rev before ++ [mkParagraph (pg_sgn p) (pg_align p) (pg_vp p) (pg_rows p) (pg_parts p ++ [mkPart b e piece_list])]
+                          | [] => acc
+                          end
+                        else acc in
+            paragraphs_go r start dec teletext rest (b_sn h) acc' (if cs =? 2 then Some k else None)
+        end
+      else None
+  end.
+
+(* subtitles of one subtitle group (SGN) are kept together, groups in order of first appearance *)
+Fixpoint sgn_order (ps : list paragraph) (seen : list Z) : list Z :=
+  match ps with
+  | [] => rev seen
+  | p :: r => if existsb (fun s => s =? pg_sgn p) seen then sgn_order r seen else sgn_order r (pg_sgn p :: seen)
+  end.
+Definition by_group (ps : list paragraph) : list (list paragraph) :=
+  map (fun g => filter (fun p => pg_sgn p =? g) ps) (sgn_order ps []).
+
+(* the presentation of a file; None = outside the domain of this specification *)
+Definition presentation (file : list Z) (sc : start_cfg) (rc : rows_cfg) : option (list (list paragraph) * Z) :=
+  let g := firstn 1024 file in
+  if negb (Nat.eqb (length g) 1024) then None else
+  match dfc_rate (gsi_dfc g), blocks_of (S (length file)) (skipn 1024 file) with
+  | Some r, Some bs =>
+      match subtitles_of bs with
+      | None => None
+      | Some subs =>
+          let rows := max_rows g rc in
+          if rows <? 1 then None else
+          match paragraphs_go r (programme_start r g sc) (decoder_spec (gsi_cct g)) (teletext_dsc (gsi_dsc g)) subs (-1) [] None with
+          | Some ps => Some (by_group ps, rows)
+          | None => None
+          end
+      end
+  | _, _ => None
+  end.
